@@ -40,6 +40,7 @@ Definition targets (o : op) : list nat :=
   | Write i _ _ => [i]
   | FromWrap i _ _ _ _ => [i]
   | ResetWrap i _ _ _ => [i]
+  | ResizeRef i _ _ _ => [i]
   end.
 (* the buffer a slot's wrapper designates *)
 Definition buf_of st i : option nat :=
